@@ -577,7 +577,10 @@ class HostsHarness:
         node = self.nodes[act["h"]]
         node.accepting = act["x"] != "refuse"
         node.require_auth = act["x"] == "auth"
-        node.handshake_script = _drop_handshake if act["x"] == "drop" else None
+        # keep whatever hook a subclass installed on the node (the system harness taps every frame there)
+        if not hasattr(node, "_base_handshake_script"):
+            node._base_handshake_script = None if node.handshake_script is _drop_handshake else node.handshake_script
+        node.handshake_script = _drop_handshake if act["x"] == "drop" else node._base_handshake_script
 
     def act_CtlFail(self, act):
         c = self._ctl_conn()
